@@ -1,5 +1,11 @@
 // correspondence driver for gmlc/libguarded/lr_guarded.hpp  (model: coq/Model/LRModel.v)
-// T = vs::VPay (every payload access is a two-step window), Mutex = std::mutex (instrumented).
+// T = LPay = vs::VPay (every payload access is a two-step window) with an operator== that is coarser than the
+// object state: the functor id 7 is "auxiliary data" that comparisons ignore (digits 7 of the base-8 log are
+// skipped).  lr_guarded never compares payloads, so this is invisible on the real code.
+// Mutex = std::mutex (instrumented).
+// The lr_guarded object is DEFAULT-initialised by placement new (`new (buf) LR;`) into storage pre-filled with
+// a poison byte (0x01 when the slot count is odd, 0xFF when even): the variadic constructor with zero arguments
+// must run and initialise the flags and counters.
 // cfg = <slots per thread> <throw plan: global indices of the user_call invocations that throw>...
 // ops:  0 fid   modify(f_fid)        f_fid(x) = user_call(fid); x.write(x.read()*8+fid); user_call(fid+100)
 //       0 fid 1 the same modification passed as an RVALUE class object whose call operator is value-category
@@ -20,6 +26,24 @@
 #undef std
 #include "driver.hpp"
 #include <optional>
+
+// payload: VPay with an equality that ignores the auxiliary modifications (fid 7)
+struct LPay: vs::VPay {
+    using vs::VPay::VPay;
+    static long strip7(long v)
+    {
+        long out = 0, mul = 1;
+        for (; v > 0; v /= 8) {
+            if (v % 8 != 7) {
+                out += (v % 8) * mul;
+                mul *= 8;
+            }
+        }
+        return out;
+    }
+    bool operator==(const LPay& o) const { return strip7(read()) == strip7(o.read()); }
+    bool operator!=(const LPay& o) const { return !(*this == o); }
+};
 
 // value-category aware functor (see op `0 fid 1`)
 struct RvFunctor {
@@ -51,13 +75,27 @@ struct RvFunctor {
 };
 
 struct LRComp {
-    using LR = gmlc::libguarded::lr_guarded<vs::VPay, vstd::mutex>;
+    using LR = gmlc::libguarded::lr_guarded<LPay, vstd::mutex>;
     using Handle = LR::shared_handle;
-    LR lr;
+    alignas(LR) unsigned char buf[sizeof(LR)];
+    LR* lrp;
+    LR& lr;
     // the deleter holds a reference: handles cannot be move-assigned, so they are emplaced
     std::vector<std::vector<std::optional<Handle>>> slots;  // destroyed before lr
     int ns;
-    explicit LRComp(const vs::Case& c): lr(0L), ns((int)(c.cfg.empty() ? 0 : c.cfg[0]))
+    static LR* make(unsigned char* b, int ns)
+    {
+        std::memset(b, (ns % 2) ? 0x01 : 0xFF, sizeof(LR));
+        return new (b) LR;  // default-initialisation: no parentheses, no braces
+    }
+    LRComp(const LRComp&) = delete;
+    ~LRComp()
+    {
+        slots.clear();
+        lrp->~LR();
+    }
+    explicit LRComp(const vs::Case& c):
+        lrp(make(buf, (int)(c.cfg.empty() ? 0 : c.cfg[0]))), lr(*lrp), ns((int)(c.cfg.empty() ? 0 : c.cfg[0]))
     {
         slots.resize(c.progs.size());
         for (auto& s : slots) s.resize((size_t)ns);
